@@ -82,7 +82,10 @@ def app (T : ClassTable) (m : String) (v : Val) : Option Val :=
      | _ => some .bad)
   | "toNum" =>
     (match v with
-     | .list xs => some (.int (xs.foldl (fun n x => match x with | .int d => n * 10 + d | _ => n) 0))
+     | .list xs =>
+       -- a number that does not fit into a Go int (64 bits) makes the mapper fail (repair of the silent wrap-around)
+       let n := xs.foldl (fun n x => match x with | .int d => n * 10 + d | _ => n) 0
+       if n > 9223372036854775807 then none else some (.int n)
      | _ => some .bad)
   | "toLetters" =>
     (match v with
